@@ -29,7 +29,11 @@ DRIVER = "C16"
 RULE = ("one evaluation = one public call (or one generated program / real run) with generated arguments, observed for "
         "execution attempts and store effects, followed by plan() and (sampled) visualize() of its result; arguments from a "
         "type-directed table: arrays of 1-3 dims (sizes 1-6, 1..dim chunks, dtypes float64/int64/bool/complex128), axes, "
-        "scalars, dtypes, shapes; two Spec flavours (tracing intermediate_store / work_dir directory); non-trivial = the "
+        "scalars, dtypes, shapes; plus a fixed scalar-slot corpus: every parameter that takes a scalar (clip bounds, scalars of "
+        "binary elementwise ops / where / operators, fill values, arange/linspace/eye/tril/triu/roll/repeat/tile arguments, "
+        "axes, shapes, split_every, correction, chunks, index keys ...) also gets a 0-d cubed array, constant (asarray) and "
+        "data-dependent (a reduction), alone, all together and mixed; three Spec flavours (tracing intermediate_store / "
+        "work_dir directory / none); non-trivial = the "
         "call was accepted (returned or tripped the execution detector), distinct by (variant, arguments)")
 ASSUMPTIONS = [
     "executor contract `Barrier` (every task of every predecessor node has run before a task starts) — C07's property; "
@@ -979,6 +983,8 @@ _CACHE = {}
 def run_all(ctx, scale=1):
     env = Env(ctx)
     try:
+        fixed_corpus(env, ctx)
+        slot_sweep(env, ctx, passes=ctx.budget(3, 6) * scale)
         sweep(env, ctx, rounds=ctx.budget(2, 14) * scale, viz_total=ctx.budget(8, 60) * scale)
         programs(env, ctx, ctx.budget(50, 800) * scale, viz_total=ctx.budget(4, 30) * scale)
         reals = real_runs(env, ctx, ctx.budget(12, 150) * scale, True)
@@ -998,6 +1004,10 @@ def corr(ctx):
     verdicts, reals = run_all(ctx)
     _CACHE[id(ctx)] = True
     ctx.notes.append("API-wide sweep = differential validation of the effect table (publicExec / site table), not proof")
+    ctx.notes.append("scalar-slot corpus: a 0-d cubed array in a parameter the standard accepts arrays for must stay lazy (executing = "
+                     "violation); in a parameter documented as a Python scalar (shape entries, axes, shifts, split_every, chunks, "
+                     "num, n, slice bounds) the library's int()/operator.index()/float() is the property's 'conversion to an "
+                     "in-memory value' and is only tallied (coverage.implicit_conversions_of_scalar_only_parameters)")
     # (1) effect table: observed "tried to execute" vs the model's list
     labels = sorted(verdicts)
     model_exec = ["compute", "Array.compute", "store", "to_zarr", "measure_reserved_mem", "Array.__array__", "Array.__bool__",
@@ -1103,3 +1113,202 @@ def search(ctx):
         if ctx.failures:
             return
     run_all(ctx, scale=3 if ctx.tier == "quick" else 1)
+
+
+# ----------------------------------------------------------------------------------------------
+# scalar slots: wherever a parameter takes a scalar, also try a 0-d cubed array
+# ----------------------------------------------------------------------------------------------
+
+ARRAY_SLOT = "array-ok"      # the array API standard (or cubed's own signature) accepts an array here: must stay lazy
+SCALAR_SLOT = "scalar-only"  # documented as a Python scalar: a 0-d cubed array may be declined or implicitly converted
+
+
+def zero_d(env, spec, value, kind):
+    """A 0-d cubed array holding `value`: 'const' = asarray(value), 'data' = a data-dependent reduction."""
+    import numpy as np
+
+    import cubed.array_api as xp
+    if kind == "const":
+        return xp.asarray(value, spec=spec)
+    if isinstance(value, bool):
+        return xp.all(xp.asarray(np.asarray([value, value]), chunks=1, spec=spec))
+    return xp.max(xp.asarray(np.asarray([value - 1, value]), chunks=1, spec=spec))
+
+
+def slot_recipes(env, spec):
+    """[(name, {slot: (python value, slot class)}, call(values) -> result)] — the fixed scalar-slot corpus."""
+    import numpy as np
+
+    import cubed
+    import cubed.array_api as xp
+    xf = xp.asarray(np_data((4, 3), "float64"), chunks=(2, 3), spec=spec)
+    xi = xp.asarray(np_data((4, 3), "int64"), chunks=(2, 3), spec=spec)
+    xb = xp.asarray(np_data((4, 3), "bool"), chunks=(2, 3), spec=spec)
+    v = xp.asarray(np_data((6,), "float64"), chunks=(2,), spec=spec)
+    sq = xp.asarray(np_data((4, 4), "float64"), chunks=(2, 2), spec=spec)
+    A, S = ARRAY_SLOT, SCALAR_SLOT
+    R = []
+    # bounds of clip: the standard allows `int | float | array`
+    R.append(("clip", {"min": (2, A), "max": (8, A)}, lambda s: xp.clip(xi, s["min"], s["max"])))
+    R.append(("clip[float]", {"min": (1.5, A), "max": (4.5, A)}, lambda s: xp.clip(xf, s["min"], s["max"])))
+    R.append(("clip[min only]", {"min": (2, A)}, lambda s: xp.clip(xi, min=s["min"])))
+    R.append(("clip[max only]", {"max": (8, A)}, lambda s: xp.clip(xi, max=s["max"])))
+    # scalars in binary elementwise functions and operators (either position)
+    for name, fn in public_functions():
+        if "." in name or not callable(fn) or inspect.isclass(fn):
+            continue
+        try:
+            ps = list(inspect.signature(fn).parameters)
+        except (TypeError, ValueError):
+            continue
+        if ps[:2] != ["x1", "x2"] or len(ps) != 2:
+            continue
+        for x, val, tag in ((xf, 2.0, "float"), (xi, 2, "int"), (xb, True, "bool")):
+            R.append(("%s[%s,x2]" % (name, tag), {"x2": (val, A)}, lambda s, fn=fn, x=x: fn(x, s["x2"])))
+            R.append(("%s[%s,x1]" % (name, tag), {"x1": (val, A)}, lambda s, fn=fn, x=x: fn(s["x1"], x)))
+    for op in ("__add__", "__mul__", "__sub__", "__truediv__", "__pow__", "__lt__", "__eq__", "__radd__", "__rsub__", "__mod__"):
+        R.append(("Array.%s" % op, {"other": (2.0, A)}, lambda s, op=op: getattr(xf, op)(s["other"])))
+    R.append(("where", {"x1": (1.0, A), "x2": (2.0, A)}, lambda s: xp.where(xb, s["x1"], s["x2"])))
+    R.append(("where[one array]", {"x2": (2.0, A)}, lambda s: xp.where(xb, xf, s["x2"])))
+    R.append(("isin", {"x2": (2, A)}, lambda s: xp.isin(xi, s["x2"])))
+    R.append(("searchsorted", {"x2": (2.5, A)}, lambda s: xp.searchsorted(v, s["x2"])))
+    R.append(("asarray", {"obj": (5, A)}, lambda s: xp.asarray(s["obj"], spec=spec)))
+    R.append(("astype", {"x": (5, A)}, lambda s: xp.astype(s["x"], xp.float32) if hasattr(s["x"], "shape") else None))
+    R.append(("broadcast_to", {"x": (5, A)}, lambda s: xp.broadcast_to(s["x"], (2, 3)) if hasattr(s["x"], "shape") else None))
+    R.append(("stack", {"a": (1.0, A), "b": (2.0, A)},
+              lambda s: xp.stack([s["a"], s["b"]]) if hasattr(s["a"], "shape") and hasattr(s["b"], "shape") else None))
+    R.append(("repeat", {"repeats": (2, A)}, lambda s: xp.repeat(v, s["repeats"], axis=0)))
+    R.append(("diff[prepend/append]", {"prepend": (0.0, A)},
+              lambda s: xp.diff(v, prepend=xp.reshape(s["prepend"], (1,))) if hasattr(s["prepend"], "shape") else None))
+    R.append(("pad[constant_values]", {"constant_values": (0, S)},
+              lambda s: cubed.pad(v, ((1, 1),), mode="constant", constant_values=s["constant_values"])))
+    # documented as Python scalars
+    R.append(("full", {"fill_value": (7, S)}, lambda s: xp.full((4, 3), s["fill_value"], chunks=(2, 3), spec=spec)))
+    R.append(("full_like", {"fill_value": (7, S)}, lambda s: xp.full_like(xi, s["fill_value"])))
+    R.append(("full[shape]", {"n": (4, S)}, lambda s: xp.full((s["n"], 3), 7, chunks=(2, 3), spec=spec)))
+    R.append(("zeros[shape]", {"n": (4, S)}, lambda s: xp.zeros((s["n"],), chunks=(2,), spec=spec)))
+    R.append(("arange", {"start": (0, S), "stop": (10, S), "step": (2, S)},
+              lambda s: xp.arange(s["start"], s["stop"], s["step"], chunks=3, spec=spec)))
+    R.append(("linspace", {"start": (0.0, S), "stop": (1.0, S), "num": (5, S)},
+              lambda s: xp.linspace(s["start"], s["stop"], s["num"], chunks=2, spec=spec)))
+    R.append(("eye", {"n_rows": (4, S), "k": (1, S)}, lambda s: xp.eye(s["n_rows"], k=s["k"], chunks=2, spec=spec)))
+    R.append(("tril", {"k": (1, S)}, lambda s: xp.tril(sq, k=s["k"])))
+    R.append(("triu", {"k": (1, S)}, lambda s: xp.triu(sq, k=s["k"])))
+    R.append(("roll", {"shift": (1, S)}, lambda s: xp.roll(v, s["shift"], axis=0)))
+    R.append(("roll[axis]", {"axis": (0, S)}, lambda s: xp.roll(v, 1, axis=s["axis"])))
+    R.append(("tile", {"reps": (2, S)}, lambda s: xp.tile(v, (s["reps"],))))
+    R.append(("reshape", {"n": (6, S)}, lambda s: xp.reshape(xf, (s["n"], 2))))
+    R.append(("broadcast_to[shape]", {"n": (2, S)}, lambda s: xp.broadcast_to(v, (s["n"], 6))))
+    R.append(("expand_dims", {"axis": (0, S)}, lambda s: xp.expand_dims(v, axis=s["axis"])))
+    R.append(("squeeze", {"axis": (0, S)}, lambda s: xp.squeeze(xp.expand_dims(v, axis=0), s["axis"])))
+    R.append(("flip", {"axis": (0, S)}, lambda s: xp.flip(xf, axis=s["axis"])))
+    R.append(("moveaxis", {"source": (0, S), "destination": (1, S)}, lambda s: xp.moveaxis(xf, s["source"], s["destination"])))
+    R.append(("permute_dims", {"a": (1, S), "b": (0, S)}, lambda s: xp.permute_dims(xf, (s["a"], s["b"]))))
+    R.append(("concat[axis]", {"axis": (0, S)}, lambda s: xp.concat([xf, xf], axis=s["axis"])))
+    R.append(("stack[axis]", {"axis": (0, S)}, lambda s: xp.stack([xf, xf], axis=s["axis"])))
+    R.append(("unstack[axis]", {"axis": (0, S)}, lambda s: xp.unstack(xf, axis=s["axis"])))
+    R.append(("take[axis]", {"axis": (0, S)}, lambda s: xp.take(xf, np.asarray([0, 2]), axis=s["axis"])))
+    for red in ("sum", "mean", "max", "prod", "any", "argmax", "count_nonzero", "cumulative_sum", "nansum", "nanmean"):
+        f = getattr(xp, red, None) or getattr(cubed, red, None)
+        if f is None:
+            continue
+        R.append(("%s[axis]" % red, {"axis": (0, S)}, lambda s, f=f: f(xf, axis=s["axis"])))
+    for red in ("sum", "mean", "max", "argmax"):
+        R.append(("%s[split_every]" % red, {"split_every": (2, S)}, lambda s, f=getattr(xp, red): f(xf, axis=0, split_every=s["split_every"])))
+    R.append(("var[correction]", {"correction": (1.0, S)}, lambda s: xp.var(xf, correction=s["correction"])))
+    R.append(("std[correction]", {"correction": (1.0, S)}, lambda s: xp.std(xf, axis=0, correction=s["correction"])))
+    R.append(("diff[n]", {"n": (1, S)}, lambda s: xp.diff(v, n=s["n"])))
+    R.append(("vecdot[axis]", {"axis": (-1, S)}, lambda s: xp.vecdot(xf, xf, axis=s["axis"])))
+    R.append(("tensordot[axes]", {"axes": (1, S)}, lambda s: xp.tensordot(xf, xp.matrix_transpose(xf), axes=s["axes"])))
+    R.append(("rechunk", {"c": (2, S)}, lambda s: cubed.rechunk(xf, (s["c"], 3))))
+    R.append(("asarray[chunks]", {"c": (2, S)}, lambda s: xp.asarray(np_data((4, 3), "float64"), chunks=(s["c"], 3), spec=spec)))
+    R.append(("pad[pad_width]", {"w": (1, S)}, lambda s: cubed.pad(v, ((s["w"], 1),), mode="constant")))
+    R.append(("random.random[size]", {"n": (4, S)}, lambda s: cubed.random.random((s["n"],), chunks=(2,), spec=spec)))
+    # indexing: an integer-like cubed array as (part of) a key is the property's "indexing with a cubed array"
+    R.append(("Array.__getitem__[int]", {"i": (1, "cubed-key")}, lambda s: xf[s["i"]]))
+    R.append(("Array.__getitem__[slice bound]", {"i": (1, S)}, lambda s: xf[s["i"]:, :]))
+    R.append(("take[indices]", {"i": (1, "cubed-key")}, lambda s: xp.take(v, s["i"])))
+    return R
+
+
+def slot_assignments(slots):
+    """Which slots get a 0-d array, and of which kind: every single slot, all slots together (same kind and mixed)."""
+    names = list(slots)
+    out = []
+    for kind in ("const", "data"):
+        for n in names:
+            out.append({n: kind})
+        if len(names) > 1:
+            out.append({n: kind for n in names})
+    if len(names) > 1:
+        out.append({n: ("const" if i % 2 == 0 else "data") for i, n in enumerate(names)})
+        out.append({n: ("data" if i % 2 == 0 else "const") for i, n in enumerate(names)})
+    return out
+
+
+def slot_sweep(env, ctx, passes):
+    """The fixed scalar-slot corpus.  Outcome classes per call: declined at build (TypeError/ValueError/...: fine),
+    lazy result (fine), tried to execute: a violation for ARRAY_SLOT parameters; for SCALAR_SLOT parameters it is the
+    implicit Python conversion (int()/float()/operator.index on the user's array, i.e. the property's "conversion to an
+    in-memory value") and is only tallied; for cubed-key slots it is the allowed "indexing with a cubed array"."""
+    viz_budget = [0]
+    implicit = {}
+    for p in range(passes):
+        spec = [env.spec_a, env.spec_b, None][p % 3]
+        try:
+            recipes = slot_recipes(env, spec)
+        except DECLINE as e:
+            ctx.notes.append("scalar-slot corpus could not be built: %r" % (e,))
+            return
+        for name, slots, call in recipes:
+            for assign in slot_assignments(slots):
+                try:
+                    values = {n: (zero_d(env, spec, val, assign[n]) if n in assign else val) for n, (val, _) in slots.items()}
+                except DECLINE:
+                    continue
+                classes = {slots[n][1] for n in assign}
+                label = "%s{%s}" % (name, ",".join("%s=0d-%s" % (n, assign[n]) for n in sorted(assign)))
+                case = {"call": name, "zero_d_arguments": assign, "python_values": {n: v for n, (v, _) in slots.items()},
+                        "spec": env.spec_name(spec),
+                        "how": "0d-const = xp.asarray(value, spec=spec); 0d-data = xp.max(xp.asarray([value-1, value], chunks=1, spec=spec))"}
+                o = observe(env, lambda call=call, values=values: call(values))
+                ok = o["outcome"] in ("ok", "tripped")
+                ctx.count({"slot": label, "spec": case["spec"]}, nontrivial=ok, kind="slot:" + o["outcome"].split(":")[0])
+                allowed_exec = classes <= {SCALAR_SLOT, "cubed-key"}
+                judge(env, ctx, label, case, o, expect_exec=allowed_exec, record=False)
+                if o["executed"] and allowed_exec:
+                    implicit[name] = sorted(classes)
+                if ok and not o["executed"]:
+                    follow_up(env, ctx, label, case, o["result"], viz_budget)
+    if implicit:
+        ctx.extra["implicit_conversions_of_scalar_only_parameters"] = implicit
+
+
+def fixed_corpus(env, ctx):
+    """Fixed scenarios (run on every check, all Spec flavours).  1-3: clip with 0-d array bounds as allowed by the array API
+    standard (seeded change C16-1: an eager `min > max` sanity check went through Array.__bool__), each composed further
+    (negative) and planned."""
+    import numpy as np
+
+    import cubed.array_api as xp
+
+    def scen(kind, spec):
+        x = xp.asarray(np.arange(12, dtype=np.int64).reshape(3, 4), chunks=(2, 2), spec=spec)
+        if kind == "clip(x, asarray(3), asarray(8))":
+            lo, hi = xp.asarray(3, dtype=xp.int64, spec=spec), xp.asarray(8, dtype=xp.int64, spec=spec)
+        elif kind == "clip(x, min(x)+2, max(x)-2)":
+            lo, hi = xp.add(xp.min(x), 2), xp.subtract(xp.max(x), 2)
+        else:
+            lo, hi = 3, xp.asarray(8, dtype=xp.int64, spec=spec)
+        z = xp.negative(xp.clip(x, lo, hi))
+        z.plan()
+        return z
+
+    for spec in (env.spec_b, env.spec_a, None):
+        for kind in ("clip(x, asarray(3), asarray(8))", "clip(x, min(x)+2, max(x)-2)", "clip(x, 3, asarray(8))"):
+            case = {"corpus": "negative(%s).plan()" % kind, "x": "asarray(arange(12).reshape(3,4), chunks=(2,2))", "spec": env.spec_name(spec)}
+            o = observe(env, lambda kind=kind, spec=spec: scen(kind, spec))
+            ctx.count(case, nontrivial=o["outcome"] == "ok", kind="corpus:" + o["outcome"].split(":")[0])
+            judge(env, ctx, "corpus: " + kind, case, o, expect_exec=False, record=False)
+            if o["outcome"] == "ok":
+                follow_up(env, ctx, "corpus: " + kind, case, o["result"], [0])
